@@ -35,12 +35,21 @@ type TypeCfg struct {
 	AuctionSize int64
 }
 
+// Types is the UNIVERSE of collateral types of a run (positions = the type numbers of the case lines and of the
+// Lean model).  The first NBase are listed in the genesis parameters; "xrp-b" is not: governance adds it in the
+// middle of a history.  Any type can be removed from the parameters and added again while CDPs of it exist;
+// denom and conversion factor are attributes of the type and never change (the stored ratio-index keys were
+// computed with them).  Spot/Liq are the markets of the genesis parameters; governance can switch them.
 var Types = []TypeCfg{
 	{"bnb-a", "bnb", 2, 8, "bnb:usd", "bnb:usd:30", 0, 1, 5000000000},
 	{"bnb-b", "bnb", 2, 8, "bnb:usd", "bnb:usd:30", 0, 1, 5000000000},
 	{"eth-a", "eth", 3, 18, "eth:usd", "eth:usd:30", 2, 3, 0}, // auction size set below (10^19)
 	{"xrp-a", "xrp", 4, 6, "xrp:usd", "xrp:usd:30", 4, 5, 100000000},
+	{"xrp-b", "xrp", 4, 6, "xrp:usd", "xrp:usd:30", 4, 5, 100000000},
 }
+
+// NBase: how many types of the universe the genesis (and DefaultParams) list.
+const NBase = 4
 
 var Denoms = []string{"usdx", "debt", "bnb", "eth", "xrp"}
 var Markets = []string{"bnb:usd", "bnb:usd:30", "eth:usd", "eth:usd:30", "xrp:usd", "xrp:usd:30"}
@@ -67,17 +76,23 @@ type World struct {
 	Mods   []sdk.AccAddress // cdp, liquidator, auction
 }
 
+// DefaultCollateral: the parameters a type of the universe has in the genesis / when governance lists it anew.
+func DefaultCollateral(ty int) cdptypes.CollateralParam {
+	t := Types[ty]
+	return cdptypes.CollateralParam{
+		Denom: t.Denom, Type: t.Name, LiquidationRatio: sdk.MustNewDecFromStr("1.5"),
+		DebtLimit:    sdk.NewCoin("usdx", sdkmath.NewIntFromBigInt(Pow10(18))),
+		StabilityFee: sdk.MustNewDecFromStr("1.000000001547125958"), AuctionSize: AuctionSize(t),
+		LiquidationPenalty: sdk.MustNewDecFromStr("0.05"), SpotMarketID: t.Spot, LiquidationMarketID: t.Liq,
+		KeeperRewardPercentage: sdk.MustNewDecFromStr("0.01"), CheckCollateralizationIndexCount: sdkmath.NewInt(10),
+		ConversionFactor: sdkmath.NewInt(t.CF),
+	}
+}
+
 func DefaultParams() cdptypes.Params {
 	var cps cdptypes.CollateralParams
-	for _, t := range Types {
-		cps = append(cps, cdptypes.CollateralParam{
-			Denom: t.Denom, Type: t.Name, LiquidationRatio: sdk.MustNewDecFromStr("1.5"),
-			DebtLimit:    sdk.NewCoin("usdx", sdkmath.NewIntFromBigInt(Pow10(18))),
-			StabilityFee: sdk.MustNewDecFromStr("1.000000001547125958"), AuctionSize: AuctionSize(t),
-			LiquidationPenalty: sdk.MustNewDecFromStr("0.05"), SpotMarketID: t.Spot, LiquidationMarketID: t.Liq,
-			KeeperRewardPercentage: sdk.MustNewDecFromStr("0.01"), CheckCollateralizationIndexCount: sdkmath.NewInt(10),
-			ConversionFactor: sdkmath.NewInt(t.CF),
-		})
+	for ty := 0; ty < NBase; ty++ {
+		cps = append(cps, DefaultCollateral(ty))
 	}
 	huge := sdkmath.NewIntFromBigInt(Pow10(30))
 	return cdptypes.Params{
@@ -120,7 +135,7 @@ func NewWorld() *World {
 	params := DefaultParams()
 	var gats cdptypes.GenesisAccumulationTimes
 	var gtps cdptypes.GenesisTotalPrincipals
-	for _, t := range Types {
+	for _, t := range Types[:NBase] {
 		gats = append(gats, cdptypes.NewGenesisAccumulationTime(t.Name, time.Time{}, sdk.OneDec()))
 		gtps = append(gtps, cdptypes.NewGenesisTotalPrincipal(t.Name, sdk.ZeroInt()))
 	}
@@ -262,7 +277,7 @@ func (w *World) Observe(ctx sdk.Context) Obs {
 		return false
 	})
 	for _, t := range Types {
-		o.TPrin = append(o.TPrin, k.GetTotalPrincipal(ctx, t.Name, "usdx").BigInt())
+		o.TPrin = append(o.TPrin, totalPrincipal(k, ctx, t.Name))
 		if f, ok := k.GetInterestFactor(ctx, t.Name); ok {
 			o.IFac = append(o.IFac, f.BigInt())
 		} else {
@@ -294,6 +309,17 @@ func (w *World) Observe(ctx sdk.Context) Obs {
 		o.Supply = append(o.Supply, bk.GetSupply(ctx, dn).Amount.BigInt())
 	}
 	return o
+}
+
+// totalPrincipal: GetTotalPrincipal writes a zero when the record is absent, and that write panics for a type
+// that is not listed in the parameters ("collateral not found"): an absent record of an unlisted type reads as 0.
+func totalPrincipal(k cdpkeeper.Keeper, ctx sdk.Context, name string) (v *big.Int) {
+	defer func() {
+		if r := recover(); r != nil {
+			v = big.NewInt(0)
+		}
+	}()
+	return k.GetTotalPrincipal(ctx, name, "usdx").BigInt()
 }
 
 func optBig(x *big.Int) string {
@@ -391,20 +417,54 @@ func (o Obs) String() string {
 	return sb.String()
 }
 
-// ParamsString renders the parameter field of a case line.
+// MarketID: position of a market name in Markets (the market numbers of the case lines).
+func MarketID(name string) int {
+	for i, m := range Markets {
+		if m == name {
+			return i
+		}
+	}
+	panic("harness: market outside the universe: " + name)
+}
+
+// FindCollateral: the entry of universe type ty in a parameter set (nil = the type is not listed).
+func FindCollateral(p *cdptypes.Params, ty int) *cdptypes.CollateralParam {
+	if ty < 0 || ty >= len(Types) {
+		return nil
+	}
+	for i := range p.CollateralParams {
+		if p.CollateralParams[i].Type == Types[ty].Name {
+			return &p.CollateralParams[i]
+		}
+	}
+	return nil
+}
+
+// ParamsString renders the parameter field of a case line from a parameter set (the one read from the x/params
+// store): one entry per type of the universe in type-name order — a type that is not listed keeps its denom and
+// conversion factor and is flagged inactive — then the globals, the user accounts, and the positions of the listed
+// types in the order of CollateralParams (the begin blocker's loop order).
 func (w *World) ParamsString(p cdptypes.Params, genUsdx *big.Int) string {
 	var ts []string
-	for i, cp := range p.CollateralParams {
-		t := Types[i]
-		if cp.Type != t.Name {
-			panic("harness: collateral params out of order")
+	for ty, t := range Types {
+		cp := FindCollateral(&p, ty)
+		if cp == nil {
+			ts = append(ts, fmt.Sprintf("%d,0,0,1,0,0,%d,%d,%d,0", t.DenomID, t.CF, t.SpotID, t.LiqID))
+			continue
+		}
+		if cp.Denom != t.Denom || cp.ConversionFactor.Int64() != t.CF {
+			panic("harness: denom / conversion factor of a collateral type changed (outside the modelled parameter changes)")
 		}
 		one := "0"
 		if cp.StabilityFee.Equal(sdk.OneDec()) {
 			one = "1"
 		}
-		ts = append(ts, fmt.Sprintf("%d,%s,%s,%s,%s,%s,%d,%d,%d", t.DenomID, cp.LiquidationRatio.BigInt(), cp.DebtLimit.Amount,
-			one, cp.KeeperRewardPercentage.BigInt(), cp.CheckCollateralizationIndexCount, cp.ConversionFactor.Int64(), t.SpotID, t.LiqID))
+		ts = append(ts, fmt.Sprintf("%d,%s,%s,%s,%s,%s,%d,%d,%d,1", t.DenomID, cp.LiquidationRatio.BigInt(), cp.DebtLimit.Amount,
+			one, cp.KeeperRewardPercentage.BigInt(), cp.CheckCollateralizationIndexCount, cp.ConversionFactor.Int64(),
+			MarketID(cp.SpotMarketID), MarketID(cp.LiquidationMarketID)))
+	}
+	if p.DebtParam.ConversionFactor.Int64() != 6 || p.DebtParam.Denom != "usdx" {
+		panic("harness: debt param denom / conversion factor changed (outside the modelled parameter changes)")
 	}
 	glob := fmt.Sprintf("%d,%s,%s,%s,%s,%s,%s,%s,%d,%d", p.DebtParam.ConversionFactor.Int64(), p.DebtParam.DebtFloor, p.GlobalDebtLimit.Amount,
 		p.SurplusAuctionThreshold, p.SurplusAuctionLot, p.DebtAuctionThreshold, p.DebtAuctionLot, genUsdx, len(Denoms), len(Markets))
@@ -412,5 +472,17 @@ func (w *World) ParamsString(p cdptypes.Params, genUsdx *big.Int) string {
 	for i := range w.Users {
 		us = append(us, fmt.Sprint(3+i))
 	}
-	return strings.Join(ts, ";") + "|" + glob + "|" + strings.Join(us, ",")
+	var order []string
+	for _, cp := range p.CollateralParams {
+		ty := TypeID(cp.Type)
+		if ty < 0 {
+			panic("harness: collateral type outside the universe: " + cp.Type)
+		}
+		order = append(order, fmt.Sprint(ty))
+	}
+	ord := "-"
+	if len(order) > 0 {
+		ord = strings.Join(order, ",")
+	}
+	return strings.Join(ts, ";") + "|" + glob + "|" + strings.Join(us, ",") + "|" + ord
 }
